@@ -74,6 +74,8 @@ class Loop(Harness):
 
         def fake_send_init(out_, s_, kex_group, kex_, gex_alg, mn, pref, mx):
             calls.append((gex_alg, mn, pref, mx))
+            if len(calls) > 100:
+                raise RuntimeError('more than 100 probes')       # a probe loop that never ends is cut off (and reported) instead of hanging the check
             return server_reply(inp['have'], self.style, mn, pref, mx), False
 
         class S:
@@ -159,6 +161,8 @@ class FlakyLoop(Loop):
         def fake_send_init(out_, s_, kex_group, kex_, gex_alg, mn, pref, mx):
             idx = len(calls)
             calls.append((gex_alg, mn, pref, mx))
+            if idx > 100:
+                raise RuntimeError('more than 100 probes')
             a = s_ite(inp['stall'] == idx, -1, server_reply(inp['have'], self.style, mn, pref, mx))
             answers.append(a)
             return a, False
@@ -220,6 +224,8 @@ class LoopReal(Loop):
 
             def send_init_gex(self_, sock, mn, pref, mx):
                 calls.append((harness.alg, mn, pref, mx))
+                if len(calls) > 100:
+                    raise RuntimeError('more than 100 probes')
                 self_.size = server_reply(inp['have'], harness.style, mn, pref, mx)
                 if bool(self_.size == -1):
                     raise KE('no group')
